@@ -71,7 +71,10 @@ func (p *pp) Print(args ...interface{}) {
 	np.buf = p.buf
 	// Under Safe(), the nested printer must not enclose anything either.
 	np.override = p.override
+	finished := false
+	defer p.keepNestedOutput(np, &finished)
 	np.doPrint(args)
+	finished = true
 	p.buf = np.buf
 	np.buf = buffer{}
 	np.override = noOverride
@@ -88,11 +91,27 @@ func (p *pp) Printf(format string, arg ...interface{}) {
 	np := newPrinter()
 	np.buf = p.buf
 	np.override = p.override
+	finished := false
+	defer p.keepNestedOutput(np, &finished)
 	np.doPrintf(format, arg)
+	finished = true
 	p.buf = np.buf
 	np.buf = buffer{}
 	np.override = noOverride
 	np.free()
+}
+
+// keepNestedOutput is deferred by Print and Printf around the use of
+// the nested printer np, which writes to (a copy of) p's buffer. If
+// np is left by a panic (a panic value whose own printing panics is
+// not reported but propagated), p's copy is stale: np may have taken
+// back p's closing marker and written over it. Take over np's buffer
+// so that p continues from what was really written. np is then
+// abandoned, not returned to the pool.
+func (p *pp) keepNestedOutput(np *pp, finished *bool) {
+	if !*finished {
+		p.buf = np.buf
+	}
 }
 
 func (p *pp) UnsafeString(s string) {
